@@ -2,7 +2,8 @@
    proposed in fixes/C16.  The text is the byte list [s ++ [0]] with the terminator written out;
    a cursor is a suffix of it, so "reading beyond the terminator" is reading from [] and is
    reported as [Oob].  NO proofs in this file. *)
-From Coq Require Import ZArith List Bool.
+From Coq Require Import ZArith List Bool Arith.
+From Common Require Import ListAux.
 From Xml Require Import Gen_Xml XmlSpec.
 Import ListNotations.
 Local Open Scope Z_scope.
@@ -447,3 +448,259 @@ Definition toString (e : node) : list Z := gen_header ++ toStr e.
 
 (* serialise then parse *)
 Definition roundtrip (e : node) : res node := parse (toString e).
+
+(* ---- Xml::Variant / Xml::Element values (Xml.hpp:13-184): blocks with reference counts ------ *)
+(* handle = Variant::data: None = &nullData (ref 0, never counted), Some b = heap block b.
+   A block holds its reference count and a String or an Element; the Element's content list holds
+   handles again (the Variants stored in List<Variant>).
+   Conventions (validated by the correspondence run, which compares every value and every
+   reference count after every operation):
+   - block ids are never reused; a block whose count reaches 0 stays as a tombstone (rc = 0);
+   - writing an exclusively owned block in place (ref == 1) is modelled as: retire the old id, move
+     the children (no count changes, exactly like the in-place write), allocate the modified
+     payload under a fresh id, and redirect EVERY slot that referred to the old id to the new one
+     (an in-place write is seen by every Variant object that points to the block);
+   - so a block's children always have smaller ids than the block. *)
+
+Definition handle := option nat.
+
+Inductive payload : Type :=
+| PText (t : bytes)
+| PElem (l c : Z) (nm : bytes) (at_ : list (bytes * bytes)) (hs : list handle).
+
+Record block : Type := mkBlock { rc : nat; pl : payload }.
+Definition heap := list block.
+(* a slot of the harness: None = no Variant object, Some h = a Variant whose data pointer is h *)
+Record vstate : Type := mkV { hp : heap; slots : list (option handle) }.
+
+Definition children (p : payload) : list handle :=
+  match p with PElem _ _ _ _ hs => hs | PText _ => [] end.
+
+Definition rcof (H : heap) (b : nat) : nat :=
+  match nth_error H b with Some k => rc k | None => O end.
+
+Definition set_rc (b n : nat) (H : heap) : heap :=
+  match nth_error H b with Some k => upd b (mkBlock n (pl k)) H | None => H end.
+
+(* Variant(const Variant&): `if(other.data->ref) Atomic::increment(data->ref)` *)
+Definition share (H : heap) (h : handle) : heap :=
+  match h with Some b => set_rc b (S (rcof H b)) H | None => H end.
+
+(* Variant::clear(): decrement; at 0 destroy the payload (an Element clears every Variant of its
+   content list) and free the block *)
+Fixpoint release (f : nat) (H : heap) (h : handle) : heap :=
+  match h with
+  | None => H
+  | Some b =>
+    match f with
+    | O => H
+    | S f' =>
+      match nth_error H b with
+      | None => H
+      | Some k =>
+        match rc k with
+        | O => H
+        | S O => fold_left (release f') (children (pl k)) (set_rc b 0 H)
+        | S n => set_rc b n H
+        end
+      end
+    end
+  end.
+Definition release_top (H : heap) (h : handle) : heap := release (S (length H)) H h.
+
+(* new char[sizeof(Data) + sizeof(T)]; ref = 1 *)
+Definition alloc (H : heap) (p : payload) : heap * handle := (H ++ [mkBlock 1 p], Some (length H)).
+
+Definition lookup (H : heap) (h : handle) : option block :=
+  match h with Some b => nth_error H b | None => None end.
+
+Definition elem_parts : Type := Z * Z * bytes * list (bytes * bytes) * list handle.
+Definition empty_parts : elem_parts := (0, 0, [], [], []).
+
+(* non-const Variant::toElement() on an owned handle (Xml.hpp:120-144): other type -> clear(), a
+   fresh Element; ref > 1 -> copy of the Element (its content Variants are copy-constructed),
+   clear(); else the Element itself.  Returns the heap, the Element's fields (content handles
+   owned by the caller) and, when the write is in place, the id of the block written. *)
+Definition open_elem (H : heap) (h : handle) : heap * elem_parts * option nat :=
+  match h with
+  | None => (H, empty_parts, None)
+  | Some b =>
+    match nth_error H b with
+    | None => (H, empty_parts, None)
+    | Some k =>
+      match pl k with
+      | PText _ => (release_top H h, empty_parts, None)
+      | PElem l c nm at_ hs =>
+        if (1 <? rc k)%nat
+        then (set_rc b (pred (rc k)) (fold_left share hs H), (l, c, nm, at_, hs), None)
+        else (set_rc b 0 H, (l, c, nm, at_, hs), Some b)
+      end
+    end
+  end.
+
+(* generic slot access (same conventions as sget / sset of the spec) *)
+Fixpoint gget {A} (s : list (option A)) (i : nat) : option A :=
+  match s, i with
+  | [], _ => None
+  | x :: _, O => x
+  | _ :: r, S i' => gget r i'
+  end.
+Fixpoint gset {A} (s : list (option A)) (i : nat) (v : option A) : list (option A) :=
+  match s, i with
+  | [], O => [v]
+  | [], S i' => None :: gset [] i' v
+  | _ :: r, O => v :: r
+  | x :: r, S i' => x :: gset r i' v
+  end.
+
+Definition redirect (b : nat) (h2 : handle) (S : list (option handle)) : list (option handle) :=
+  map (fun x => match x with
+                | Some (Some b') => if (b' =? b)%nat then Some h2 else x
+                | _ => x
+                end) S.
+
+(* store the new handle in slot i; an in-place write of block ip is seen by every slot pointing to it *)
+Definition place (i : nat) (h2 : handle) (ip : option nat) (S : list (option handle)) : list (option handle) :=
+  gset (match ip with Some b => redirect b h2 S | None => S end) i (Some h2).
+
+Definition drop_slot (s : vstate) (i : nat) : heap :=
+  match gget (slots s) i with Some h => release_top (hp s) h | None => hp s end.
+
+Definition mstep (s : vstate) (o : vop) : vstate :=
+  let H := hp s in
+  let S := slots s in
+  match o with
+  | VNull i => mkV (drop_slot s i) (gset S i (Some None))
+  | VText i t => let '(H1, h1) := alloc (drop_slot s i) (PText t) in mkV H1 (gset S i (Some h1))
+  | VElem i nm => let '(H1, h1) := alloc (drop_slot s i) (PElem 0 0 nm [] []) in mkV H1 (gset S i (Some h1))
+  | VCopy i j =>
+    match gget S j with
+    | Some hj =>
+      let H1 := share H hj in
+      let H2 := match gget S i with Some hi => release_top H1 hi | None => H1 end in
+      mkV H2 (gset S i (Some hj))
+    | None => s
+    end
+  | VAssign i j =>
+    match gget S i, gget S j with
+    | Some hi, Some hj => mkV (release_top (share H hj) hi) (gset S i (Some hj))
+    | _, _ => s
+    end
+  | VSetText i t =>
+    match gget S i with
+    | Some hi =>
+      let inplace := match lookup H hi with
+                     | Some k => match pl k with PText _ => negb (1 <? rc k)%nat | _ => false end
+                     | None => false
+                     end in
+      if inplace
+      then match hi with
+           | Some b => let '(H1, h1) := alloc (set_rc b 0 H) (PText t) in mkV H1 (place i h1 (Some b) S)
+           | None => s
+           end
+      else let '(H1, h1) := alloc (release_top H hi) (PText t) in mkV H1 (gset S i (Some h1))
+    | None => s
+    end
+  | VName i nm =>
+    match gget S i with
+    | Some hi =>
+      let '(H1, (l, c, _, at_, hs), ip) := open_elem H hi in
+      let '(H2, h2) := alloc H1 (PElem l c nm at_ hs) in
+      mkV H2 (place i h2 ip S)
+    | None => s
+    end
+  | VAttr i k v =>
+    match gget S i with
+    | Some hi =>
+      let '(H1, (l, c, nm, at_, hs), ip) := open_elem H hi in
+      let '(H2, h2) := alloc H1 (PElem l c nm (attr_put k v at_) hs) in
+      mkV H2 (place i h2 ip S)
+    | None => s
+    end
+  | VChild i j =>
+    match gget S i, gget S j with
+    | Some hi, Some hj =>
+      let H0 := share H hj in                                   (* Variant child(slot j) *)
+      let '(H1, (l, c, nm, at_, hs), ip) := open_elem H0 hi in   (* slot[i]->toElement() *)
+      let '(H2, h2) := alloc H1 (PElem l c nm at_ (hs ++ [hj])) in
+      mkV H2 (place i h2 ip S)
+    | _, _ => s
+    end
+  | VSub i j k =>
+    match gget S j with
+    | Some hj =>
+      match lookup H hj with
+      | Some kb =>
+        match pl kb with
+        | PElem _ _ _ _ hs =>
+          match nth_error hs k with
+          | Some hc =>
+            let H1 := share H hc in
+            let H2 := match gget S i with Some hi => release_top H1 hi | None => H1 end in
+            mkV H2 (gset S i (Some hc))
+          | None => s
+          end
+        | PText _ => s
+        end
+      | None => s
+      end
+    | None => s
+    end
+  | VSubMut i k nm =>
+    match gget S i with
+    | Some hi =>
+      match lookup H hi with
+      | Some kb =>
+        match pl kb with
+        | PElem _ _ _ _ hs0 =>
+          if (k <? length hs0)%nat then
+            let '(H1, (l, c, nm0, at_, hs), ip) := open_elem H hi in
+            let hk := nth k hs None in
+            let '(H2, (l', c', _, at', hs'), ipc) := open_elem H1 hk in
+            let '(H3, hc) := alloc H2 (PElem l' c' nm at' hs') in
+            let '(H4, h4) := alloc H3 (PElem l c nm0 at_ (upd k hc hs)) in
+            mkV H4 (place i h4 ip (match ipc with Some bc => redirect bc hc S | None => S end))
+          else s
+        | PText _ => s
+        end
+      | None => s
+      end
+    | None => s
+    end
+  | VElCopy i j =>
+    match gget S j with
+    | Some hj =>
+      match lookup H hj with
+      | Some kb =>
+        match pl kb with
+        | PElem l c nm at_ hs =>
+          let '(H1, h1) := alloc (fold_left share hs H) (PElem l c nm at_ hs) in
+          let H2 := match gget S i with Some hi => release_top H1 hi | None => H1 end in
+          mkV H2 (gset S i (Some h1))
+        | PText _ => s
+        end
+      | None => s
+      end
+    | None => s
+    end
+  | VDel i => mkV (drop_slot s i) (gset S i None)
+  end.
+
+Definition vinit : vstate := mkV [] [].
+
+(* the value a handle denotes: blocks only refer to older blocks, so one pass over the heap *)
+Definition hval (vs : list node) (h : handle) : node :=
+  match h with None => Nul | Some b => nth b vs Nul end.
+Definition val_of (vs : list node) (p : payload) : node :=
+  match p with
+  | PText t => T t
+  | PElem l c nm at_ hs => N l c nm at_ (map (hval vs) hs)
+  end.
+Fixpoint vals_acc (acc : list node) (H : list payload) : list node :=
+  match H with
+  | [] => acc
+  | p :: H' => vals_acc (acc ++ [val_of acc p]) H'
+  end.
+Definition vals (H : heap) : list node := vals_acc [] (map pl H).
+
+Definition vabs (s : vstate) : store := map (option_map (hval (vals (hp s)))) (slots s).
